@@ -45,6 +45,7 @@ type VerifC05Case struct {
 	Kind     string         `json:"kind"`  // mix | forced | coretxn
 	Procs    int            `json:"procs"` // GOMAXPROCS
 	Nds      int            `json:"nds"`   // shared datasets d001..d<nds>
+	Twins    int            `json:"twins"` // further shared datasets dX00,dx00 .. : pairs of names that differ only in case
 	Groups   [][]int        `json:"groups"`
 	Threads  [][]VerifC05Op `json:"threads"`
 	Readers  int            `json:"readers"`
@@ -66,6 +67,8 @@ type VerifC05RunObs struct {
 	Times   map[string][]int `json:"times"` // per dataset: rank of the recorded time of each feed entry
 	Looks   [][3]int       `json:"looks"` // [dataset, k of the last feed entry of an entity, k returned by the scoped lookup]
 	Torn    int            `json:"torn"`  // merged reads whose per-dataset parts disagree
+	AtTorn  int            `json:"attorn"`  // point-in-time merged reads (at the recorded instant of a part) whose parts disagree
+	AtReads int            `json:"atreads"`
 	Reads   int            `json:"reads"`
 	Detail  string         `json:"detail"`
 }
@@ -81,9 +84,16 @@ const (
 	vc05Core = -2
 )
 
+// dataset codes and names; the byte order of the names is the numeric order of the codes:
+// d001..d999 < dX00..dX99 (codes 1000+j) < dx00..dx99 (codes 2000+j); dXjj / dxjj differ only in case.
 func vc05Name(code int) string {
-	if code == vc05Core {
+	switch {
+	case code == vc05Core:
 		return datasetCore
+	case code >= 2000:
+		return fmt.Sprintf("dx%02d", code-2000)
+	case code >= 1000:
+		return fmt.Sprintf("dX%02d", code-1000)
 	}
 	return fmt.Sprintf("d%03d", code)
 }
@@ -94,6 +104,13 @@ func vc05Code(name string) int {
 		return vc05Dsm
 	case name == datasetCore:
 		return vc05Core
+	case len(name) == 4 && name[0] == 'd' && (name[1] == 'X' || name[1] == 'x'):
+		if n, err := strconv.Atoi(name[2:]); err == nil {
+			if name[1] == 'X' {
+				return 1000 + n
+			}
+			return 2000 + n
+		}
 	case len(name) == 4 && name[0] == 'd':
 		if n, err := strconv.Atoi(name[1:]); err == nil {
 			return n
@@ -217,6 +234,17 @@ func (r *vc05Rec) handle(name, arg string) {
 	}
 }
 
+func vc05Shared(c VerifC05Case) []int {
+	var l []int
+	for d := 1; d <= c.Nds; d++ {
+		l = append(l, d)
+	}
+	for j := 0; j < c.Twins; j++ {
+		l = append(l, 1000+j, 2000+j)
+	}
+	return l
+}
+
 type vc05Env struct {
 	store   *Store
 	dsm     *DsManager
@@ -291,6 +319,7 @@ type vc05Entry struct {
 	m   int
 	rec uint64
 	id  string
+	iid uint64
 }
 
 func vc05Entries(ds *Dataset, since int) ([]vc05Entry, error) {
@@ -315,7 +344,7 @@ func vc05Entries(ds *Dataset, since int) ([]vc05Entry, error) {
 				m = int(f)
 			}
 		}
-		out = append(out, vc05Entry{m, e.Recorded, e.ID})
+		out = append(out, vc05Entry{m, e.Recorded, e.ID, e.InternalID})
 	}
 	return out, nil
 }
@@ -340,7 +369,7 @@ func vc05Setup(c VerifC05Case, dir string) (*vc05Env, func(), error) {
 	dsm := NewDsManager(cfg, store, NoOpBus())
 	env := &vc05Env{store: store, dsm: dsm, c: c}
 	cleanup := func() { _ = store.Close(); _ = os.RemoveAll(dir) }
-	for d := 1; d <= c.Nds; d++ {
+	for _, d := range vc05Shared(c) {
 		ds, err := dsm.CreateDataset(vc05Name(d), nil)
 		if err != nil {
 			return env, cleanup, err
@@ -381,10 +410,8 @@ func vc05Execute(env *vc05Env, threads [][]VerifC05Op, kbase int, forced bool, w
 	}
 	// feed offsets after setup
 	offs := map[int]int{}
-	dsl := []int{vc05Core}
-	for d := 1; d <= c.Nds; d++ {
-		dsl = append(dsl, d)
-	}
+	dsl := append([]int{vc05Core}, vc05Shared(c)...)
+	shared := vc05Shared(c)
 	for _, d := range dsl {
 		ms, err := vc05Markers(env.dsm.GetDataset(vc05Name(d)), 0)
 		if err != nil {
@@ -443,8 +470,8 @@ func vc05Execute(env *vc05Env, threads [][]VerifC05Op, kbase int, forced bool, w
 					return
 				default:
 				}
-				if c.Nds > 0 {
-					d := 1 + (n+r)%c.Nds
+				if len(shared) > 0 {
+					d := shared[(n+r)%len(shared)]
 					ms, err := vc05Markers(env.dsm.GetDataset(vc05Name(d)), offs[d])
 					if err == nil {
 						rmu.Lock()
@@ -535,6 +562,8 @@ wait:
 			dsl = append(dsl, w)
 		}
 	}
+	entries := map[int][]vc05Entry{}
+	var allrecs []uint64
 	for _, d := range dsl {
 		ds := env.dsm.GetDataset(vc05Name(d))
 		es, err := vc05Entries(ds, offs[d])
@@ -543,33 +572,42 @@ wait:
 			run.Detail = err.Error()
 			return
 		}
+		entries[d] = es
+		for _, e := range es {
+			allrecs = append(allrecs, e.rec)
+		}
+	}
+	// recorded times as dense ranks over ALL datasets (the parts of one transaction must carry one instant)
+	sort.Slice(allrecs, func(i, j int) bool { return allrecs[i] < allrecs[j] })
+	rank := map[uint64]int{}
+	for _, v := range allrecs {
+		if _, ok := rank[v]; !ok {
+			rank[v] = len(rank)
+		}
+	}
+	mergedAt := map[string]map[uint64]uint64{} // merged-read entity id -> recorded instants -> internal id
+	for _, d := range dsl {
+		es := entries[d]
 		ms := make([]int, len(es))
-		recs := make([]uint64, 0, len(es))
+		tr := make([]int, len(es))
 		lastOf := map[string]int{}
 		var ids []string
 		for i, e := range es {
 			ms[i] = e.m
-			recs = append(recs, e.rec)
+			tr[i] = rank[e.rec]
 			if _, seen := lastOf[e.id]; !seen {
 				ids = append(ids, e.id)
 			}
 			lastOf[e.id] = e.m
+			if strings.HasPrefix(e.id, "ns3:m") && e.iid != 0 {
+				if mergedAt[e.id] == nil {
+					mergedAt[e.id] = map[uint64]uint64{}
+				}
+				mergedAt[e.id][e.rec] = e.iid
+			}
 		}
 		final[d] = ms
 		run.Feeds[strconv.Itoa(d)] = ms
-		// recorded times as dense ranks
-		sorted := append([]uint64(nil), recs...)
-		sort.Slice(sorted, func(i, j int) bool { return sorted[i] < sorted[j] })
-		rank := map[uint64]int{}
-		for _, v := range sorted {
-			if _, ok := rank[v]; !ok {
-				rank[v] = len(rank)
-			}
-		}
-		tr := make([]int, len(recs))
-		for i, v := range recs {
-			tr[i] = rank[v]
-		}
 		run.Times[strconv.Itoa(d)] = tr
 		if d != vc05Core {
 			sort.Strings(ids)
@@ -582,6 +620,31 @@ wait:
 					}
 				}
 				run.Looks = append(run.Looks, [3]int{d, lastOf[id], got})
+			}
+		}
+	}
+	// point-in-time lookups of every merged-read entity at every instant one of its parts was recorded:
+	// a transaction is visible entirely or not at all
+	for g, grp := range c.Groups {
+		for at, iid := range mergedAt[fmt.Sprintf("ns3:m%d", g)] {
+			e, err := env.store.GetEntityAtPointInTimeWithInternalID(iid, int64(at), nil, true)
+			if err != nil || e == nil {
+				continue
+			}
+			first, bad := -1.0, false
+			for _, gd := range grp {
+				v, ok := e.Properties[fmt.Sprintf("ns3:k%d", gd)].(float64)
+				if !ok {
+					bad = true
+				} else if first < 0 {
+					first = v
+				} else if v != first {
+					bad = true
+				}
+			}
+			run.AtReads++
+			if bad {
+				run.AtTorn++
 			}
 		}
 	}
